@@ -80,6 +80,10 @@ sh(f'rm -rf {root} && mkdir -p {root}/target/release && cp /verif/known_findings
 cenv = dict(env, VERIF_ROOT=root, SYLT_BIN=f'{S}/target/sylt-bin/debug/sylt')
 results = {}
 checks = [f'C{i:02d}' for i in range(1, 21)]
+if os.environ.get('SEVAL_CHECKS'):
+    only = set(os.environ['SEVAL_CHECKS'].split()) | {prop}
+    checks = [c for c in checks if c in only]
+    meta['checks_run'] = checks
 for c in checks:
     t0 = time.time()
     try:
